@@ -89,8 +89,18 @@ def main():
     walk_go(os.path.join(VERIF, "engine"), os.path.join(VX, "engine"), overlay)
     walk_go(os.path.join(VERIF, "harness"), VX, overlay)
     walk_go(os.path.join(VERIF, "cmd"), os.path.join(VX, "cmd"), overlay)
-    gen = os.path.join(BUILD, "gen", kind)
+    only = [x for x in os.environ.get("VERIF_ONLY", "").lower().split(",") if x]
+    suffix = ("-only-" + "-".join(only)) if only else ""
+    gen = os.path.join(BUILD, "gen", kind + suffix)
     os.makedirs(gen, exist_ok=True)
+    # the list of registered checks is generated from the harness directories
+    pkgs = sorted(d for d in os.listdir(os.path.join(VERIF, "harness"))
+                  if os.path.isdir(os.path.join(VERIF, "harness", d)) and (not only or d in only))
+    reg = "package main\n\nimport (\n" + "".join('\t_ "%s/internal/verifx/%s"\n' % (MOD, d) for d in pkgs) + ")\n"
+    regpath = os.path.join(gen, "checks_gen.go")
+    if not os.path.exists(regpath) or open(regpath).read() != reg:
+        open(regpath, "w").write(reg)
+    overlay[os.path.join(VX, "cmd", "verifx", "checks_gen.go")] = regpath
     for cached, app, subst in CACHE_APPEND:
         apppath = os.path.join(VERIF, app)
         orig = os.path.join(MODCACHE, cached)
@@ -122,9 +132,9 @@ def main():
             else:
                 os.remove(dst + ".new")
             overlay[src] = dst
-    ovpath = os.path.join(BUILD, "overlay-%s.json" % kind)
+    ovpath = os.path.join(BUILD, "overlay-%s%s.json" % (kind, suffix))
     open(ovpath, "w").write(json.dumps({"Replace": overlay}, indent=1))
-    out = os.path.join(BUILD, "verifx-sched" if kind == "sched" else "verifx")
+    out = os.path.join(BUILD, ("verifx-sched" if kind == "sched" else "verifx") + suffix)
     cmd = ["go", "build", "-tags", "verif", "-overlay", ovpath, "-modfile", os.path.join(BUILD, "go.mod"),
            "-o", out + ".new", MOD + "/internal/verifx/cmd/verifx"]
     r = subprocess.run(cmd, cwd=REPO, env=goenv(), capture_output=True, text=True)
